@@ -39,15 +39,16 @@ Theorem C14_observations_see_established :
 Proof. intros roots sched g st l cur lex. apply established_event. apply reachable_inv. Qed.
 Print Assumptions C14_observations_see_established.
 
-(* ---- restored_after: normal return AND panic ---------------------------------------------------------------------- *)
+(* ---- restored_after: normal return, panic AND runtime.Goexit ---------------------------------------------------------------------- *)
 
 (* Let goroutine g be about to execute ANY statement p (a scope construct with an arbitrarily nested body, or a
    simple statement) with table entry t0 (no table / a table without a context / current context a).  Then along
    every continuation of the schedule (`scope_run`, Proofs/CtxProofs.v): g stays at p or inside the frames pushed
-   by p, until the step by which it leaves p — to the continuation `resume false R` on normal return, or to
-   `resume true R` (the next deferred function / recover point below) when p panics — and at that very moment its
-   table entry is t0 again: the saved context is restored, a table created by DoWithContext is released, a table
-   without a context is left without one. *)
+   by p, until the step by which it leaves p — to the continuation `resume false R` on normal return, to
+   `resume true R` (the next deferred function / recover point below) when p panics, or to `resume true (notry R)`
+   (the next deferred function below; the recover points are inert) when runtime.Goexit was called in p — and at that
+   very moment its table entry is t0 again: the saved context is restored, a table created by DoWithContext is
+   released, a table without a context is left without one.  (`inside g (notry R)`: still inside p, after a Goexit.) *)
 Theorem C14_restored_after :
   forall roots sched0 g st env p ps K sched,
     let c := run sched0 (init_config roots) in
@@ -82,7 +83,8 @@ Print Assumptions C14_goroutine_local.
 
 (* ---- tls_released ------------------------------------------------------------------------------------------------------ *)
 
-(* A goroutine that has ended — normally or by panic, forked by px.Fork / px.Go / threadlocal.Go or a plain root
+(* A goroutine that has ended — normally, by panic or by runtime.Goexit (`PGoexit` is a statement of the programs
+   quantified over), forked by px.Fork / px.Go / threadlocal.Go or a plain root
    goroutine that called Do / DoWithContext — holds no goroutine-local table any more ... *)
 Theorem C14_tls_released_each :
   forall roots sched g st,
@@ -116,6 +118,18 @@ Proof.
   apply released_all; [|exact Hf]. apply run_inv. apply reachable_inv.
 Qed.
 Print Assumptions C14_tls_released_eventually.
+
+(* runtime.Goexit is not stopped by any recover point.  The step that executes Goexit leaves below the statement the
+   frames `exit_stack PGoexit K = notry K`, which hold no recover point; and an unwinding over frames without a
+   recover point stops only in front of a deferred function (still unwinding: `true`), at the goroutine epilogue
+   (the deferred Cleanup of px.Fork / threadlocal.Go) or at the end of the stack, and what it leaves again holds no
+   recover point.  So after Goexit no statement of the goroutine is executed any more: all that runs are the deferred
+   functions of the enclosing scopes and the epilogue — after which the table is gone (C14_tls_released_each). *)
+Theorem C14_goexit_never_recovered :
+  (forall K, exit_stack PGoexit K = notry K /\ ~ In KTry (notry K)) /\
+  (forall K, ~ In KTry K -> exit_stop (unwind K) /\ ~ In KTry (snd (unwind K))).
+Proof. split; [intros K; split; [reflexivity|apply notry_no_try]|exact unwind_no_try]. Qed.
+Print Assumptions C14_goexit_never_recovered.
 
 (* The goroutine-local table is never found missing by px code (threadlocal.Set never panics with "thread local
    not initialized"): no trace of any goroutine under any schedule contains that panic. *)
@@ -298,6 +312,29 @@ Example C14_nonvacuous_released :
   map (fun n => live_tables (tls (sh (run (firstn n ex_sched) (init_config ex_roots))))) [0; 3; 10; 20; 25] =
   [0; 1; 2; 1; 0].
 Proof. vm_compute. auto. Qed.
+
+(* runtime.Goexit in a forked goroutine, inside recover { DoWithContext(fork) { .. } }: the goroutine observes once,
+   calls Goexit, and nothing of it runs afterwards although a recover point encloses the call; the step after Goexit
+   runs the deferred restore of DoWithContext (context 2 of the fork is current again), the next the epilogue: the
+   table is gone.  The parent then finishes; no table is left. *)
+Definition gx_roots : list (list prog) :=
+  [[PDo 1%N false [PSet 0%N 1%Z;
+                   PFork 3%N [PTry [PDoCtx 5%N CFork [PObserve 6%N; PGoexit; PObserve 8%N]; PObserve 9%N]; PObserve 10%N];
+                   PObserve 11%N]]].
+Example C14_nonvacuous_goexit :
+  let c5 := run [0; 0; 0; 1; 1; 1; 1; 1] (init_config gx_roots) in
+  let c6 := step 1 c5 in let c7 := step 1 c6 in
+  let cf := run [0; 0; 0] c7 in
+  tl_find 1 (tls (sh c5)) = Some (Some 3) /\
+  option_map g_stack (nth_error (gs c5) 1) =
+    Some [KDefer [XRestore 2]; KSeq [2] [PObserve 9%N]; KSeq [2] [PObserve 10%N]; KEnd true] /\
+  tl_find 1 (tls (sh c6)) = Some (Some 2) /\ option_map g_stack (nth_error (gs c6) 1) = Some [KEnd true] /\
+  tl_find 1 (tls (sh c7)) = None /\
+  option_map (fun st => map (fun e => match e with EObs l _ _ => Some l | _ => None end) (rev (g_trace st)))
+             (nth_error (gs c7) 1) = Some [Some 6%N; None; None] /\
+  option_map (fun st => hd_error (tl (g_trace st))) (nth_error (gs c7) 1) = Some (Some (EPanic PExit)) /\
+  finished cf = true /\ live_tables (tls (sh cf)) = 0.
+Proof. vm_compute. auto 12. Qed.
 
 (* the hypothesis of C14_restored_after is satisfiable, for a scope that is left by a panic: after 12 steps
    goroutine 0 is about to execute `recover { DoWithContext(fork) {Observe; panic} }` with the context of Do
